@@ -90,11 +90,11 @@ theorem C19_sample_and_continue :
     (∀ (h2 : Bool) (facts : H2Facts) (cfg : AutoTagCfg) (tag : String) (id : Nat) (path : String) (reply : Reply),
         (h2 && h2Panics facts reply) = false →
         ∃ s, (GunShot.http h2 facts cfg tag id path reply).run.reports = [s] ∧ carries reply s) ∧
-    (∀ (h2 : Bool) (facts : H2Facts) (scn : String) (steps : List (StepCfg × Reply)),
-        (GunShot.scenario h2 facts scn steps).documentedFatal = false →
-        (GunShot.scenario h2 facts scn steps).run.reports.length
-          = executedSteps (steps.map fun (c, r) => { name := c.name, outcome := stepOutcome c r }) ∧
-        (steps ≠ [] → 1 ≤ (GunShot.scenario h2 facts scn steps).run.reports.length)) ∧
+    (∀ (h2 : Bool) (scn : String) (steps : List (StepCfg × H2Facts × Reply)),
+        (GunShot.scenario h2 scn steps).documentedFatal = false →
+        (GunShot.scenario h2 scn steps).run.reports.length
+          = executedSteps (steps.map fun (c, _, r) => { name := c.name, outcome := stepOutcome c r }) ∧
+        (steps ≠ [] → 1 ≤ (GunShot.scenario h2 scn steps).run.reports.length)) ∧
     (∀ (tag : String) (o : GrpcOutcome), (GunShot.grpc tag o).run.reports.length = 1) ∧
     (∀ (scn : String) (calls : List (GrpcCallCfg × GrpcReply)),
         (GunShot.grpcScenario scn calls).run.reports.length
@@ -119,15 +119,15 @@ theorem C19_sample_and_continue :
     | full r =>
       exact ⟨{ tags := httpTag cfg tag path, id := id, proto := r.status, net := 0 },
         by simp [Reply.httpOutcome, shootHttp], by simp [carries]⟩
-  · intro h2 facts scn steps hnf
-    have hlen : (GunShot.scenario h2 facts scn steps).run.reports.length
-        = executedSteps (steps.map fun (c, r) => { name := c.name, outcome := stepOutcome c r }) := by
+  · intro h2 scn steps hnf
+    have hlen : (GunShot.scenario h2 scn steps).run.reports.length
+        = executedSteps (steps.map fun (c, _, r) => { name := c.name, outcome := stepOutcome c r }) := by
       simp only [GunShot.run]
-      rw [scenario_map_eq_of_not_fatal h2 facts steps hnf scn]
+      rw [scenario_map_eq_of_not_fatal h2 steps hnf scn]
       apply Proofs.C10.shootScenario_length
       intro s hs st
       simp only [List.mem_map] at hs
-      obtain ⟨⟨c, r⟩, _, rfl⟩ := hs
+      obtain ⟨⟨c, f, r⟩, _, rfl⟩ := hs
       exact stepOutcome_no_panic c r st
     refine ⟨hlen, ?_⟩
     intro hne
@@ -162,25 +162,25 @@ completed; the sample of a completed step carries the scenario.step tag, the REC
 sample of a step that failed for whatever reason (no response, broken body, unparsable JSON, a scalar xpath, an
 assertion, a header the modifiers reject) carries the tag `…|__EMPTY__`, proto 0 and the failure net code 999, and
 it is the last sample of that shot. -/
-theorem C19_scenario_samples (h2 : Bool) (facts : H2Facts) (scn : String) (steps : List (StepCfg × Reply))
-    (hnf : (GunShot.scenario h2 facts scn steps).documentedFatal = false) :
-    let ms : List Step := steps.map fun (c, r) => { name := c.name, outcome := stepOutcome c r }
-    (GunShot.scenario h2 facts scn steps).run.reports = ((steps.take (executedSteps ms)).map fun (c, r) => sampleOfStep scn c r) ∧
+theorem C19_scenario_samples (h2 : Bool) (scn : String) (steps : List (StepCfg × H2Facts × Reply))
+    (hnf : (GunShot.scenario h2 scn steps).documentedFatal = false) :
+    let ms : List Step := steps.map fun (c, _, r) => { name := c.name, outcome := stepOutcome c r }
+    (GunShot.scenario h2 scn steps).run.reports = ((steps.take (executedSteps ms)).map fun (c, _, r) => sampleOfStep scn c r) ∧
     (∀ (c : StepCfg) (resp : Resp), stepCompleted c (.full resp) = true →
         sampleOfStep scn c (.full resp) = { tags := stepTag scn c.name, id := 0, proto := resp.status, net := 0 }) ∧
     (∀ (c : StepCfg) (r : Reply), stepCompleted c r = false →
         sampleOfStep scn c r = { tags := stepTag scn c.name ++ "|" ++ emptyTag, id := 0, proto := 0, net := protoCodeError }) ∧
-    (∀ i, i + 1 < executedSteps ms → ∃ p, steps[i]? = some p ∧ stepCompleted p.1 p.2 = true) := by
-  refine ⟨by simp only [GunShot.run]; rw [scenario_map_eq_of_not_fatal h2 facts steps hnf scn]; exact shootScenario_reports scn steps,
+    (∀ i, i + 1 < executedSteps ms → ∃ p, steps[i]? = some p ∧ stepCompleted p.1 p.2.2 = true) := by
+  refine ⟨by simp only [GunShot.run]; rw [scenario_map_eq_of_not_fatal h2 steps hnf scn]; exact shootScenario_reports scn steps,
     sampleOfStep_completed scn, sampleOfStep_failed scn, ?_⟩
   clear hnf
   induction steps with
   | nil => intro i hi; simp [executedSteps] at hi
   | cons p rest ih =>
-    obtain ⟨c, r⟩ := p
+    obtain ⟨c, f, r⟩ := p
     intro i hi
     have hi' : i + 1 < (match stepOutcome c r with
-        | .received _ .ok => 1 + executedSteps (rest.map fun (c, r) => ({ name := c.name, outcome := stepOutcome c r } : Step))
+        | .received _ .ok => 1 + executedSteps (rest.map fun (c, _, r) => ({ name := c.name, outcome := stepOutcome c r } : Step))
         | _ => 1) := hi
     have hcompl : stepCompleted c r = true := by
       cases hr : stepCompleted c r with
@@ -204,9 +204,9 @@ theorem C19_scenario_samples (h2 : Bool) (facts : H2Facts) (scn : String) (steps
           exact hso st heq
         · omega
     cases i with
-    | zero => exact ⟨(c, r), rfl, hcompl⟩
+    | zero => exact ⟨(c, f, r), rfl, hcompl⟩
     | succ j =>
-      have hj : j + 1 < executedSteps (rest.map fun (c, r) => ({ name := c.name, outcome := stepOutcome c r } : Step)) := by
+      have hj : j + 1 < executedSteps (rest.map fun (c, _, r) => ({ name := c.name, outcome := stepOutcome c r } : Step)) := by
         clear hi
         split at hi'
         · rw [Nat.add_comm 1] at hi'
@@ -281,16 +281,18 @@ theorem C19_documented_fatal_iff :
     (∀ (h2 : Bool) (facts : H2Facts) (cfg : AutoTagCfg) (tag : String) (id : Nat) (path : String) (reply : Reply),
       (GunShot.http h2 facts cfg tag id path reply).documentedFatal = true ↔
         h2 = true ∧ (match reply with
-          | .noResponse _ => facts.alpnAlert = true
+          | .noResponse _ =>
+            Gen.RespGuard.doErrPanics facts.err.isOpError facts.err.opRemoteError facts.err.textNoAppProto = true ∧
+            facts.err.isOpError = true ∧ facts.err.opRemoteError = true ∧ facts.err.textNoAppProto = true
           | _ => facts.tls = none ∨ (∃ p m, facts.tls = some (p, m) ∧ (p ≠ Gen.RespGuard.nextProtoTLS ∨ m = false)))) ∧
-    (∀ facts scn steps, (GunShot.scenario false facts scn steps).documentedFatal = false) ∧
-    (∀ (facts : H2Facts) (scn : String) (steps : List (StepCfg × Reply)),
-      (GunShot.scenario true facts scn steps).documentedFatal = true ↔
-        ∃ (i : Nat) (p : StepCfg × Reply), steps[i]? = some p ∧ p.1.prepFails = false ∧ h2Panics facts p.2 = true ∧
-          ∀ j, j < i → ∃ q, steps[j]? = some q ∧ stepCompleted q.1 q.2 = true ∧ h2Panics facts q.2 = false) ∧
+    (∀ scn steps, (GunShot.scenario false scn steps).documentedFatal = false) ∧
+    (∀ (scn : String) (steps : List (StepCfg × H2Facts × Reply)),
+      (GunShot.scenario true scn steps).documentedFatal = true ↔
+        ∃ (i : Nat) (p : StepCfg × H2Facts × Reply), steps[i]? = some p ∧ p.1.prepFails = false ∧ h2Panics p.2.1 p.2.2 = true ∧
+          ∀ j, j < i → ∃ q, steps[j]? = some q ∧ stepCompleted q.1 q.2.2 = true ∧ h2Panics q.2.1 q.2.2 = false) ∧
     (∀ tag o, (GunShot.grpc tag o).documentedFatal = false) ∧
     (∀ scn calls, (GunShot.grpcScenario scn calls).documentedFatal = false) := by
-  refine ⟨?_, fun facts scn steps => scenarioFatal_false facts steps, fun facts scn steps => scenarioFatal_true_iff facts steps,
+  refine ⟨?_, fun scn steps => scenarioFatal_false steps, fun scn steps => scenarioFatal_true_iff steps,
     fun _ _ => rfl, fun _ _ => rfl⟩
   intro h2 facts cfg tag id path reply
   have hchk : checkHTTP2 facts.tls = false ↔
@@ -315,7 +317,14 @@ theorem C19_documented_fatal_iff :
           · simp [checkHTTP2, h]
           · by_cases hp : p = nextProtoTLS <;> simp [checkHTTP2, hp, h]
   cases reply with
-  | noResponse e => simp [GunShot.documentedFatal, h2Panics]
+  | noResponse e =>
+    simp only [GunShot.documentedFatal, h2Panics, H2Facts.alpnAlert, Bridge.C19.doErrPanics_eq, Bool.and_eq_true]
+    simp only [DoErrFacts.panics, Bool.and_eq_true]
+    constructor
+    · rintro ⟨h, ⟨ha, hb⟩, hc⟩
+      exact ⟨h, ⟨⟨ha, hb⟩, hc⟩, ha, hb, hc⟩
+    · rintro ⟨h, hp, _⟩
+      exact ⟨h, hp⟩
   | brokenBody st e => simp [GunShot.documentedFatal, h2Panics, hchk]
   | full r => simp [GunShot.documentedFatal, h2Panics, hchk]
 
@@ -333,6 +342,82 @@ theorem C19_only_documented_fatal (shots : List GunShot) :
     exact ⟨g, hg, by rw [← run_panicked_iff]; exact hp⟩
   · rintro ⟨g, hg, hf⟩
     exact ⟨g.run, List.mem_map.mpr ⟨g, hg, rfl⟩, by rw [run_panicked_iff]; exact hf⟩
+
+/-! ## TLS alerts and connection plans -/
+
+/-- Of ALL alert records a peer can answer the ClientHello with (any level byte, any description byte), exactly one is
+the documented fatal condition: the FATAL alert 120 `no_application_protocol` ("I do not speak h2"). Every other one —
+internal_error 80, handshake_failure 40, bad_certificate 42, certificate_required 116, unrecognized_name 112,
+protocol_version 70, warnings, close_notify, unknown levels — is an ordinary failed exchange for the http2 gun: one
+sample with proto 0 and the failure's net code, the shot returns, the instance goes on.  (`alertErr` is how crypto/tls
+reports the record; the condition is the regenerated `Gen.RespGuard.doErrPanics`.) -/
+theorem C19_tls_alert_fatal_iff (level code : Nat) :
+    (Gen.RespGuard.doErrPanics (alertErr level code).isOpError (alertErr level code).opRemoteError
+        (alertErr level code).textNoAppProto = true ↔ level = 2 ∧ code = 120) ∧
+    (∀ (cfg : AutoTagCfg) (tag : String) (id : Nat) (path : String) (e : Err), ¬ (level = 2 ∧ code = 120) →
+      (GunShot.http true { err := alertErr level code } cfg tag id path (.noResponse e)).documentedFatal = false ∧
+      (GunShot.http true { err := alertErr level code } cfg tag id path (.noResponse e)).run
+        = { reports := [{ tags := httpTag cfg tag path, id := id, proto := 0, net := getErrno e }], panicked := false }) := by
+  have hiff : (alertErr level code).panics = true ↔ level = 2 ∧ code = 120 := by
+    unfold alertErr
+    by_cases h0 : code = 0
+    · simp [h0, DoErrFacts.panics]
+    · by_cases h2 : level = 2
+      · simp [h0, h2, DoErrFacts.panics]
+      · by_cases h1 : level = 1 <;> simp [h0, h1, h2, DoErrFacts.panics]
+  refine ⟨by rw [Bridge.C19.doErrPanics_eq]; exact hiff, ?_⟩
+  intro cfg tag id path e hne
+  have hp : (alertErr level code).panics = false := by
+    cases h : (alertErr level code).panics with
+    | false => rfl
+    | true => exact absurd (hiff.mp h) hne
+  have hf : (true && h2Panics { err := alertErr level code } (.noResponse e)) = false := by
+    simp [h2Panics, H2Facts.alpnAlert, hp]
+  exact ⟨by simpa [GunShot.documentedFatal] using hf, by simp [GunShot.run, hf, Reply.httpOutcome, shootHttp]⟩
+
+/-- One http2 client over ANY sequence of connections the peer grants (`connShots`: kept-alive or one per request),
+none of which is of the fatal kind (no ALPN alert, no connection negotiated without `h2`) — handshakes may end in
+any other alert, EOF, reset, garbage, a timeout, at any point of the run, before or after successful exchanges:
+every request gets its shot, no shot is the documented fatal one, the instance finishes with one sample per request. -/
+theorem C19_connection_plan (dka : Bool) (dflt : ConnFate) (plan : List ConnFate) (replies : List Reply) (isOpen : Bool)
+    (cfg : AutoTagCfg) (hd : dflt.fatal = false) (hp : ∀ c ∈ plan, c.fatal = false) :
+    let shots := (connShots dka dflt isOpen plan replies).map fun (f, r) => GunShot.http true f cfg "" 0 "" r
+    shots.length = replies.length ∧ (∀ g ∈ shots, g.documentedFatal = false) ∧
+    (instanceRun (shots.map GunShot.run)).result = .finished ∧
+    (instanceRun (shots.map GunShot.run)).samples.length = replies.length := by
+  intro shots
+  obtain ⟨hl, hm⟩ := connShots_not_fatal dka dflt hd replies isOpen plan hp
+  have hnf : ∀ g ∈ shots, g.documentedFatal = false := by
+    intro g hg
+    simp only [shots, List.mem_map] at hg
+    obtain ⟨⟨f, r⟩, hmem, rfl⟩ := hg
+    simp [GunShot.documentedFatal, hm (f, r) hmem]
+  have hrun := instanceRun_all (shots.map GunShot.run) (by
+    intro s hs
+    simp only [List.mem_map] at hs
+    obtain ⟨g, hg, rfl⟩ := hs
+    rw [run_panicked_iff, hnf g hg])
+  refine ⟨by simp [shots, hl], hnf, hrun.1, ?_⟩
+  rw [hrun.2.2]
+  have hone : ∀ g ∈ shots, g.run.reports.length = 1 := by
+    intro g hg
+    have hgf := hnf g hg
+    simp only [shots, List.mem_map] at hg
+    obtain ⟨⟨f, r⟩, _, rfl⟩ := hg
+    have hf : (true && h2Panics f r) = false := by simpa [GunShot.documentedFatal] using hgf
+    cases r <;> simp [GunShot.run, hf, Reply.httpOutcome, shootHttp]
+  have hsum : ∀ (l : List GunShot), (∀ g ∈ l, g.run.reports.length = 1) →
+      ((l.map GunShot.run).map (·.reports)).flatten.length = l.length := by
+    intro l
+    induction l with
+    | nil => intro _; rfl
+    | cons g rest ih =>
+      intro h
+      simp only [List.map_cons, List.flatten_cons, List.length_append, List.length_cons]
+      rw [h g (List.mem_cons_self ..), ih (fun x hx => h x (List.mem_cons_of_mem _ hx))]
+      omega
+  rw [hsum shots hone]
+  simp [shots, hl]
 
 /-! ## the defects of the tree as found (what the two fixes repair) -/
 
@@ -362,13 +447,13 @@ example : substr (-100) 100 "abc".toList = .ok ['a', 'b', 'c'] := by decide
 example : substr 0 (-100) "abc".toList = .ok [] := by decide
 example : applyChain [.lower, .replace ['='] [], .substr 6 0] "Basic Ym9=".toList = .ok "ym9".toList := by decide
 -- a scenario against a target whose second answer carries a short header: the step completes, the run goes on
-example : (GunShot.scenario false {} "s"
-    [(⟨"a", false, []⟩, .full ⟨200, fun _ => [], 0, fun _ => false, false, fun _ => false⟩),
-     (⟨"b", false, [.varHeader [⟨"X-Val", some [.substr 5 0]⟩]]⟩, .full ⟨404, fun _ => ['a','b','c'], 0, fun _ => false, false, fun _ => false⟩)]).run
+example : (GunShot.scenario false "s"
+    [(⟨"a", false, []⟩, {}, .full ⟨200, fun _ => [], 0, fun _ => false, false, fun _ => false⟩),
+     (⟨"b", false, [.varHeader [⟨"X-Val", some [.substr 5 0]⟩]]⟩, {}, .full ⟨404, fun _ => ['a','b','c'], 0, fun _ => false, false, fun _ => false⟩)]).run
     = { reports := [⟨"s.a", 0, 200, 0⟩, ⟨"s.b", 0, 404, 0⟩], panicked := false } := by decide
 -- the documented fatal case
-example : (GunShot.http true ⟨true, none⟩ ⟨false, 2, true⟩ "t" 1 "/" (.noResponse .other)).documentedFatal = true := rfl
-example : (instanceRun [(GunShot.http true ⟨true, none⟩ ⟨false, 2, true⟩ "t" 1 "/" (.noResponse .other)).run]).result = .poolFailed := by decide
+example : (GunShot.http true (.ofAlpnAlert true none) ⟨false, 2, true⟩ "t" 1 "/" (.noResponse .other)).documentedFatal = true := rfl
+example : (instanceRun [(GunShot.http true (.ofAlpnAlert true none) ⟨false, 2, true⟩ "t" 1 "/" (.noResponse .other)).run]).result = .poolFailed := by decide
 -- a refused connection is not fatal for the http2 gun
 example : (GunShot.http true {} ⟨false, 2, true⟩ "t" 1 "/" (.noResponse (.opError (.syscallError (.errno 111))))).run
     = { reports := [⟨"t", 1, 0, 111⟩], panicked := false } := by decide
@@ -376,10 +461,10 @@ example : (GunShot.http true {} ⟨false, 2, true⟩ "t" 1 "/" (.noResponse (.op
 -- C19_http_failure_is_visible: a refused connection seen by the http2 gun
 example : Proofs.C10.ErrnoNonzero (.opError (.syscallError (.errno 111))) := by simp [Proofs.C10.ErrnoNonzero]
 -- C19_scenario_samples: a three-step scenario whose second response fails its assertion: two samples, the third step is not entered
-example : (GunShot.scenario true {} "s"
-    [(⟨"a", false, [.varJsonpath ["x"]]⟩, .full ⟨201, fun _ => [], 2, fun _ => false, true, fun _ => true⟩),
-     (⟨"b", false, [.assertResponse { statusCode := 200 }]⟩, .full ⟨503, fun _ => [], 0, fun _ => false, false, fun _ => false⟩),
-     (⟨"c", false, []⟩, .full ⟨200, fun _ => [], 0, fun _ => false, false, fun _ => false⟩)]).run.reports
+example : (GunShot.scenario true "s"
+    [(⟨"a", false, [.varJsonpath ["x"]]⟩, {}, .full ⟨201, fun _ => [], 2, fun _ => false, true, fun _ => true⟩),
+     (⟨"b", false, [.assertResponse { statusCode := 200 }]⟩, {}, .full ⟨503, fun _ => [], 0, fun _ => false, false, fun _ => false⟩),
+     (⟨"c", false, []⟩, {}, .full ⟨200, fun _ => [], 0, fun _ => false, false, fun _ => false⟩)]).run.reports
     = [⟨"s.a", 0, 201, 0⟩, ⟨"s.b|__EMPTY__", 0, 0, 999⟩] := by decide
 example : stepCompleted ⟨"a", false, [.varXpath [.nodeSet]]⟩ (.full ⟨404, fun _ => [], 0, fun _ => false, false, fun _ => false⟩) = true := by decide
 example : stepCompleted ⟨"a", false, [.varXpath [.scalar]]⟩ (.full ⟨200, fun _ => [], 0, fun _ => false, false, fun _ => false⟩) = false := by decide
@@ -393,20 +478,50 @@ example : (GunShot.grpcScenario "g" [(⟨"t0", .callable, [{ statusCode := 200 }
 example : poolResult ([[GunShot.http false {} ⟨false, 2, true⟩ "a" 1 "/" (.noResponse .other)], [],
     [GunShot.grpc "g" (.invoked 14), GunShot.http false {} ⟨false, 2, true⟩ "b" 2 "/" (.brokenBody 200 .other)]].map (·.map GunShot.run))
     = .finished := by decide
-example : poolResult ([[GunShot.grpc "g" (.invoked 0)], [GunShot.http true ⟨false, none⟩ ⟨false, 2, true⟩ "t" 1 "/"
+example : poolResult ([[GunShot.grpc "g" (.invoked 0)], [GunShot.http true { tls := none } ⟨false, 2, true⟩ "t" 1 "/"
     (.full ⟨200, fun _ => [], 0, fun _ => false, false, fun _ => false⟩)]].map (·.map GunShot.run)) = .poolFailed := by decide
 -- C19_documented_fatal_iff: http/1.1 negotiated; h2 negotiated but not mutually; plain TCP; and the good case
-example : (GunShot.http true ⟨false, some ("http/1.1", true)⟩ ⟨false, 2, true⟩ "t" 1 "/" (.brokenBody 200 .other)).documentedFatal = true := by decide
-example : (GunShot.http true ⟨false, some ("h2", false)⟩ ⟨false, 2, true⟩ "t" 1 "/" (.brokenBody 200 .other)).documentedFatal = true := by decide
-example : (GunShot.http true ⟨false, some ("h2", true)⟩ ⟨false, 2, true⟩ "t" 1 "/" (.brokenBody 500 .other)).documentedFatal = false := by decide
-example : (GunShot.http false ⟨true, none⟩ ⟨false, 2, true⟩ "t" 1 "/" (.noResponse .other)).documentedFatal = false := by decide
+example : (GunShot.http true { tls := some ("http/1.1", true) } ⟨false, 2, true⟩ "t" 1 "/" (.brokenBody 200 .other)).documentedFatal = true := by decide
+example : (GunShot.http true { tls := some ("h2", false) } ⟨false, 2, true⟩ "t" 1 "/" (.brokenBody 200 .other)).documentedFatal = true := by decide
+example : (GunShot.http true { tls := some ("h2", true) } ⟨false, 2, true⟩ "t" 1 "/" (.brokenBody 500 .other)).documentedFatal = false := by decide
+example : (GunShot.http false (.ofAlpnAlert true none) ⟨false, 2, true⟩ "t" 1 "/" (.noResponse .other)).documentedFatal = false := by decide
 -- the http2/scenario gun against a TLS peer without h2: the first request that is sent is fatal, nothing is reported
-example : (GunShot.scenario true ⟨true, none⟩ "s" [(⟨"a", false, []⟩, .noResponse .other), (⟨"b", false, []⟩, .noResponse .other)]).run
+example : (GunShot.scenario true "s" [(⟨"a", false, []⟩, .ofAlpnAlert true none, .noResponse .other), (⟨"b", false, []⟩, .ofAlpnAlert true none, .noResponse .other)]).run
     = { reports := [], panicked := true } := by decide
-example : (GunShot.scenario true ⟨true, none⟩ "s" [(⟨"a", true, []⟩, .noResponse .other), (⟨"b", false, []⟩, .noResponse .other)]).documentedFatal = false := by decide
+example : (GunShot.scenario true "s" [(⟨"a", true, []⟩, .ofAlpnAlert true none, .noResponse .other), (⟨"b", false, []⟩, .ofAlpnAlert true none, .noResponse .other)]).documentedFatal = false := by decide
+-- a scenario that meets SEVERAL connections (keep-alives off): the first step over h2, the second over a connection of
+-- a backend without ALPN: one sample, then the documented fatal condition
+example : (GunShot.scenario true "s"
+    [(⟨"a", false, []⟩, {}, .full ⟨200, fun _ => [], 0, fun _ => false, false, fun _ => false⟩),
+     (⟨"b", false, []⟩, { tls := some ("", false) }, .full ⟨200, fun _ => [], 0, fun _ => false, false, fun _ => false⟩)]).run
+    = { reports := [⟨"s.a", 0, 200, 0⟩], panicked := true } := by decide
+-- … and with a TLS alert other than no_application_protocol on the second connection: two samples, the run goes on
+example : (GunShot.scenario true "s"
+    [(⟨"a", false, []⟩, {}, .full ⟨200, fun _ => [], 0, fun _ => false, false, fun _ => false⟩),
+     (⟨"b", false, []⟩, { err := alertErr 2 80 }, .noResponse .other)]).run
+    = { reports := [⟨"s.a", 0, 200, 0⟩, ⟨"s.b|__EMPTY__", 0, 0, 999⟩], panicked := false } := by decide
 -- the regenerated index arithmetic on the defect's witness: `in[3:3]`, not `in[3:5]`
 example : Gen.RespGuard.substrIdx 5 0 3 = (3, 3) := by decide
 example : Gen.RespGuard.sizeRejects ">" 10 3 = some true := by decide
 example : Gen.RespGuard.sizeRejects "~" 10 3 = none := by decide
+
+-- C19_tls_alert_fatal_iff: internal_error is an ordinary failure, no_application_protocol is the fatal one, the same
+-- description at warning level is not
+example : (alertErr 2 80).panics = false ∧ (alertErr 2 120).panics = true ∧ (alertErr 1 120).panics = false ∧
+    (alertErr 2 0).panics = false ∧ (alertErr 3 120).panics = false := by decide
+-- C19_connection_plan: the first handshake meets internal_error, the second a reset, then an h2 connection serves
+-- the rest (kept alive): three requests, three samples (two failures and the 503 of the target)
+example : (instanceRun (((connShots false .h2 false [.fails (alertErr 2 80), .fails {}] [.noResponse .other, .noResponse .other,
+      .full ⟨503, fun _ => [], 0, fun _ => false, false, fun _ => false⟩]).map
+    fun (f, r) => GunShot.http true f ⟨false, 2, true⟩ "t" 7 "/" r).map GunShot.run)).samples
+    = [⟨"t", 7, 0, 999⟩, ⟨"t", 7, 0, 999⟩, ⟨"t", 7, 503, 0⟩] := by decide
+example : ConnFate.fatal (.fails (alertErr 2 80)) = false ∧ ConnFate.fatal (.noH2 (some ("", false))) = true ∧
+    ConnFate.fatal (.fails (alertErr 2 120)) = true := by decide
+-- with keep-alives disabled the fourth request dials again and meets the backend without ALPN: documented fatal
+example : ((connShots true .h2 false [.h2, .h2, .fails {}, .noH2 (some ("", false))] (List.replicate 4
+      (.full ⟨200, fun _ => [], 0, fun _ => false, false, fun _ => false⟩))).map
+    fun (f, r) => (GunShot.http true f ⟨false, 2, true⟩ "t" 7 "/" r).documentedFatal) = [false, false, false, true] := by decide
+-- the regenerated condition of the error branch
+example : Gen.RespGuard.doErrPanics true true false = false ∧ Gen.RespGuard.doErrPanics true true true = true := by decide
 
 end Pandora.Props.C19
